@@ -2,6 +2,8 @@
 Model/Fixed.v and a direct, independent decomposition oracle on the implementation."""
 import io
 import itertools
+import os
+import zlib
 
 from cutplace import errors, rowio
 
@@ -17,17 +19,20 @@ MODEL = "run"
 EQB = "obs_eqb"
 SHARD = 2500
 RULE = ("exhaustive: all strings up to length n over {a,b,CR,LF} x width lists (1..3 fields of width 1..3, "
-        "sampled per tier) x the five line-delimiter settings; plus random longer well-formed files with one "
-        "character deleted/inserted/replaced. A case is non-trivial when the text is non-empty; distinct = distinct "
+        "sampled per tier) x the five line-delimiter settings; all strings up to length 3 (4) over {a, LF, c} containing c for each of 12 special characters c (byte order mark, NUL, U+2028, NEL, Ctrl-Z, tab, blank, FF, VT, FS, a non-BMP character, U+FFFE); plus random longer well-formed files with one "
+        "character deleted/inserted/replaced. A sixth of the cases (and all with special characters) are also stored in a file and read by path: same result required. A case is non-trivial when the text is non-empty; distinct = distinct "
         "(setting, widths, text).")
 EXHAUSTIVE = {"quick": False, "thorough": False}
 TRUSTED = ["io.StringIO(newline='').read(n) returns the next n characters unchanged (modelled by firstn/skipn)"]
 ASSUMPTIONS = ["the character stream is delivered by read(n) as written (no newline translation)"]
 
+import common as _C
+TMP = os.path.join(_C.BUILD, "C13", "tmp")
 LD = [(None, "LdNone"), ("\n", "LdLF"), ("\r", "LdCR"), ("\r\n", "LdCRLF"), ("any", "LdAny")]
 LDN = dict((n, v) for v, n in LD)
 DELIMS = {"LdNone": [""], "LdLF": ["\n"], "LdCR": ["\r"], "LdCRLF": ["\r\n"], "LdAny": ["\n", "\r", "\r\n"]}
 ALPHA = "ab\r\n"
+SPECIALS = ["\ufeff", "\x00", "\u2028", "\x85", "\x1a", "\t", " ", "\x0c", "\x0b", "\x1c", "\U0001d11e", "\ufffe"]
 
 
 def impl(ldn, widths, text):
@@ -42,9 +47,32 @@ def impl(ldn, widths, text):
         return [rows, "leak:" + type(e).__name__]
 
 
+def impl_path(ldn, widths, text):
+    """the same characters stored in a file (UTF-8) and read by path"""
+    os.makedirs(TMP, exist_ok=True)
+    path = os.path.join(TMP, "fixed_%d.txt" % os.getpid())
+    with open(path, "wb") as fh:
+        fh.write(text.encode("utf-8", "surrogatepass"))
+    rows = []
+    try:
+        for r in rowio.fixed_rows(path, "utf-8", [("f%d" % i, w) for i, w in enumerate(widths)], LDN[ldn]):
+            rows.append(list(r))
+        return [rows, True]
+    except errors.DataFormatError:
+        return [rows, False]
+    except Exception as e:  # noqa
+        return [rows, "leak:" + type(e).__name__]
+    finally:
+        os.remove(path)
+
+
 def make_case(inp):
     ldn, widths, text = inp
     obs = impl(ldn, widths, text)
+    if zlib.crc32(repr(inp).encode("utf-8")) % 6 == 0 or any(c in text for c in SPECIALS):
+        by_path = impl_path(ldn, widths, text)
+        if by_path != obs:
+            obs = obs + [{"by_path": by_path}]
     ok = obs[1] is True
     coq = P(P(ldn, L(widths, Nat), S(text)), P(L(obs[0], lambda r: L(r, S)), B(ok)))
     return {"coq": coq, "obs": obs, "nontrivial": text != "", "tags": [ldn, "ok" if ok else "error", "len%d" % min(len(text), 10)]}
@@ -88,6 +116,8 @@ def is_greedy(rows, delims):
 
 def direct_oracle(inp, obs):
     ldn, widths, text = inp
+    if len(obs) == 3:
+        return "the same characters read from a file by path give %r but from a stream %r" % (obs[2]["by_path"], obs[:2])
     rows, ok = obs
     if ok not in (True, False):
         return "non-cutplace exception escaped fixed_rows: %s" % ok
@@ -121,6 +151,15 @@ def gen_inputs(tier, rnd):
             for n in range(0, maxlen_for(ws) + 1):
                 for t in itertools.product(ALPHA, repeat=n):
                     yield [ldn, ws, "".join(t)]
+    # characters that text processing tends to treat specially (byte order mark, NUL, Unicode line separators, other
+    # control characters, blanks, non-BMP): to the reader they are data like any other - at the start, inside, at the end
+    for special in SPECIALS:
+        for _, ldn in LD:
+            for ws in ([1], [2], [1, 1]):
+                for n in range(1, 4 if tier == "quick" else 5):
+                    for t in itertools.product("a\n" + special, repeat=n):
+                        if special in t:
+                            yield [ldn, ws, "".join(t)]
     # random longer well-formed files with one mutation at every offset
     for _ in range(40 if tier == "quick" else 400):
         _, ldn = rnd.choice(LD)
